@@ -82,6 +82,8 @@ type consumeResult struct {
 	// per span, in row order: the events / links the real consumer attached (group key, attributes)
 	DecodedEvents [][]string
 	DecodedLinks  [][]string
+	// per metric, in row order: "None" for metrics that are not gauges/sums, else "Some [attrs of every number data point]"
+	DecodedPoints []string
 }
 
 func consumeAny(c *arrow_record.Consumer, signal string, bar *colarspb.BatchArrowRecords) (res consumeResult) {
@@ -122,6 +124,7 @@ func consumeAny(c *arrow_record.Consumer, signal string, bar *colarspb.BatchArro
 		for _, md := range mds {
 			res.Items += md.MetricCount()
 			res.Trees = metricsItems(md)
+			res.DecodedPoints = decodedPoints(md)
 		}
 		if e == nil && len(mds) == 0 {
 			res.Items = -1
